@@ -459,28 +459,7 @@ func genHist(prop, out, tier string, rng *rand.Rand, oracle string) {
 		}
 	}
 	if prop == "C15" {
-		// directed: copies and composes between objects of EQUAL size (with and without MD5), onto existing destinations
-		up := func(n, d string) Req {
-			return Req{Kind: "upload_media", B: "bkt", N: n, CType: "text/plain", Data: []byte(d), CP: noConds}
-		}
-		comp := func(dst string, srcs ...string) Req {
-			r := Req{Kind: "compose", B: "bkt", N: dst, Up: &UpMeta{CType: "x/composed"}, CP: noConds}
-			for _, s := range srcs {
-				r.Srcs = append(r.Srcs, Src{Name: s, Cond: Raw("")})
-			}
-			return r
-		}
-		cp := func(a, b string) Req { return Req{Kind: "copy", B: "bkt", N: a, B2: "bkt", N2: b} }
-		get := func(n string) []Req {
-			return []Req{{Kind: "get_media", B: "bkt", N: n}, {Kind: "get_meta", B: "bkt", N: n}}
-		}
-		progs := [][]Req{
-			append(append([]Req{up("a", "AAAA"), up("b", "BBBB"), comp("x", "a", "b"), comp("y", "b", "a"), cp("x", "y")}, get("y")...), get("x")...),
-			append(append([]Req{up("a", "AAAA"), up("b", "BBBB"), cp("a", "b")}, get("b")...), get("a")...),
-			append(append([]Req{up("a", "AAAA"), up("b", "BBBB"), comp("x", "a", "b"), up("y", "12345678"), cp("x", "y"), cp("y", "x")}, get("y")...), get("x")...),
-			append([]Req{up("a", "AAAA"), up("b", "BBBB"), comp("x", "a", "b"), comp("y", "b", "a"), comp("z", "x", "y"), comp("x", "y", "y"), cp("x", "z"), cp("z", "z")}, append(get("z"), get("x")...)...),
-			append([]Req{up("a", ""), up("b", ""), comp("x", "a", "b"), comp("y", "a"), cp("x", "y"), cp("x", "a")}, append(get("y"), get("a")...)...),
-		}
+		progs := sameSizePrograms()
 		for _, prog := range progs {
 			for _, mk := range stores() {
 				tasks = append(tasks, Task{mk, "same-size", prog, true})
@@ -572,5 +551,37 @@ func genHist(prop, out, tier string, rng *rand.Rand, oracle string) {
 	if prop == "C02" {
 		genUrls(sink, tier, rng) // URL forms against the model of the four unanchored patterns
 	}
-	sink.Close(fmt.Sprintf("(C02 additionally: decoded request paths - every URL form x bucket x name from pools with traps, plus random fragment concatenations - parsed by the real ParseGcsUrl and compared with the Coq model of the four unanchored patterns; and the round trip of the public form for every (bucket, name) pair) random histories (focus %s) of about %d requests over 2 buckets x %d names x %d payloads, all upload protocols with random chunkings, re-sent ranges, status queries, gzip bodies, wrong/invalid MD5, the three download URL forms, patches incl. read-only fields, listings, compose, copy, deletes, conditions; each program runs on the memory and the file store (names representable as files) and, one in three, on the memory store with trap names; distinct = distinct canonical (program, observation) text; non-trivial = at least one successful content write and one non-empty successful download", prop, length, len(namesRepresentable), len(payloads)), false)
+	sink.Close(fmt.Sprintf("(C10 additionally: every interleaving of a metadata patch with a second patch, a content write, a delete or a copy onto the same object at the yield point between precondition check and store mutation, both stores, compared step by step with the interleaving model; C02/C11 additionally: uploads, compose and copy without an object name, a resumable session with a wrong declared MD5 finished several times; C02 additionally: decoded request paths - every URL form x bucket x name from pools with traps, plus random fragment concatenations - parsed by the real ParseGcsUrl and compared with the Coq model of the four unanchored patterns; and the round trip of the public form for every (bucket, name) pair) random histories (focus %s) of about %d requests over 2 buckets x %d names x %d payloads, all upload protocols with random chunkings, re-sent ranges, status queries, gzip bodies, wrong/invalid MD5, the three download URL forms, patches incl. read-only fields, listings, compose, copy, deletes, conditions; each program runs on the memory and the file store (names representable as files) and, one in three, on the memory store with trap names; distinct = distinct canonical (program, observation) text; non-trivial = at least one successful content write and one non-empty successful download", prop, length, len(namesRepresentable), len(payloads)), false)
+}
+
+// sameSizePrograms: copies and composes between objects of EQUAL size (with and without MD5), onto
+// existing destinations, and recomposes of one destination from different sources of equal length
+func sameSizePrograms() [][]Req {
+	// directed: copies and composes between objects of EQUAL size (with and without MD5), onto existing destinations
+	up := func(n, d string) Req {
+		return Req{Kind: "upload_media", B: "bkt", N: n, CType: "text/plain", Data: []byte(d), CP: noConds}
+	}
+	comp := func(dst string, srcs ...string) Req {
+		r := Req{Kind: "compose", B: "bkt", N: dst, Up: &UpMeta{CType: "x/composed"}, CP: noConds}
+		for _, s := range srcs {
+			r.Srcs = append(r.Srcs, Src{Name: s, Cond: Raw("")})
+		}
+		return r
+	}
+	cp := func(a, b string) Req { return Req{Kind: "copy", B: "bkt", N: a, B2: "bkt", N2: b} }
+	get := func(n string) []Req {
+		return []Req{{Kind: "get_media", B: "bkt", N: n}, {Kind: "get_meta", B: "bkt", N: n}}
+	}
+	progs := [][]Req{
+		append(append([]Req{up("a", "AAAA"), up("b", "BBBB"), comp("x", "a", "b"), comp("y", "b", "a"), cp("x", "y")}, get("y")...), get("x")...),
+		append(append([]Req{up("a", "AAAA"), up("b", "BBBB"), cp("a", "b")}, get("b")...), get("a")...),
+		append(append([]Req{up("a", "AAAA"), up("b", "BBBB"), comp("x", "a", "b"), up("y", "12345678"), cp("x", "y"), cp("y", "x")}, get("y")...), get("x")...),
+		append([]Req{up("a", "AAAA"), up("b", "BBBB"), comp("x", "a", "b"), comp("y", "b", "a"), comp("z", "x", "y"), comp("x", "y", "y"), cp("x", "z"), cp("z", "z")}, append(get("z"), get("x")...)...),
+		append([]Req{up("a", ""), up("b", ""), comp("x", "a", "b"), comp("y", "a"), cp("x", "y"), cp("x", "a")}, append(get("y"), get("a")...)...),
+	}
+	progs = append(progs,
+		append([]Req{up("a", "AAAA"), up("b", "BBBB"), up("c", "CCCC"), comp("d", "a", "b"), comp("d", "a", "c")}, append(get("d"), Req{Kind: "list", B: "bkt"})...),
+		append([]Req{up("a", "AAAA"), up("b", "BBBB"), comp("x", "a", "b"), comp("y", "b", "a"), cp("y", "x")}, append(get("x"), get("y")...)...),
+		append([]Req{up("a", "AAAA"), up("b", "BBBB"), comp("x", "a"), comp("x", "b")}, get("x")...))
+	return progs
 }
